@@ -7,6 +7,7 @@ CONSTANTS
   AllowRelate = TRUE
   AllowQueryX = TRUE
   AllowSweep = TRUE
+  AllowDeclare = FALSE
   CopyModes = {}
   UnregisteredModes = {}
   Hist = FALSE
